@@ -813,7 +813,8 @@ class ShortIntegrationFrameComputer(LinearFilterBankFrameComputer):
                 chunk_copied = end_idx
                 cur_buf = self._x_buf
             else:
-                cur_buf = chunk[start_idx:end_idx]
+                # numpy >= 2 keeps single precision through the fft; use doubles
+                cur_buf = chunk[start_idx:end_idx].astype(np.float64, copy=False)
             X_buf = self._compute_dft(cur_buf)
             self._fill_y_buf(X_buf, y_keep)
             del X_buf
